@@ -347,7 +347,7 @@ impl Report {
     /// Write result JSON + replay files; returns (number of violations, inconclusive?).
     pub fn finish(mut self, cfg: &Cfg, wall_s: f64) -> (usize, bool) {
         // floors -> inconclusive
-        let floors = if cfg.tier == Tier::Tiny { Vec::new() } else { std::mem::take(&mut self.floors) };
+        let floors = if cfg.tier == Tier::Tiny || cfg.replay.is_some() { Vec::new() } else { std::mem::take(&mut self.floors) };
         for (k, min) in &floors {
             let have = self.stats.counters.get(k).copied().unwrap_or(0);
             if have < *min {
